@@ -481,6 +481,10 @@ def run(tier, seed):
         'correspondence_mismatches': res['n_mismatch'],
         'oracle_failures': res['n_oracle_fail'] + res2['n_oracle_fail'],
     }
+    # how much of the code the model transcribes do the correspondence inputs execute (a measurement, not a verdict)
+    _sample = cases[::max(1, len(cases) // 2500)]
+    coverage_lines = lib.modelled_code_coverage([('css_parser._codec3', 'detectencoding_str'), ('css_parser._codec3', 'detectencoding_unicode'), ('css_parser._codec3', '_fixencoding'), ('css_parser._codec3', 'decode'), ('css_parser._codec3', 'encode'), ('css_parser._codec3', 'IncrementalDecoder.decode'), ('css_parser._codec3', 'IncrementalEncoder.encode')], [lambda c=c: py_of(c) for c in _sample], limit=2505)
+    coverage['modelled_code_line_coverage'] = coverage_lines
     coverage['partial_theorems'] = ['the encode/decode inverse WITHOUT an encoding argument (detection from the written bytes) is not proved in Lean: decided by the round-trip oracle over the real codecs']
     assumptions = ["Python's own codecs (codecs.getincrementaldecoder / encoder) are chunking-invariant and agree with "
                    'their one-shot forms: abstract inner codec with that law in the Lean model',
